@@ -605,6 +605,23 @@ func execC18Parked(t *testing.T, c C18Parked) (v Verdict) {
 			h.Release()
 		}
 		kit.Settle()
+		// the stall is over: every write that the logical connection accepted (returned nil) - before or during the
+		// stall, before the cancellation - is on the shared transport, once; none of the refused ones is
+		onWire := map[uint64]int{}
+		for _, r := range shared.A.ReadAvailable() {
+			onWire[r.GetId()]++
+		}
+		mu.Lock()
+		for i, w := range ws {
+			id := uint64(100 + i)
+			switch {
+			case w.done && w.err == nil && onWire[id] != 1:
+				v.failf("write #%d on logical connection k0 returned nil before Cancel(k0), but its envelope is on the shared transport %d times once the stalled transport write has completed", i, onWire[id])
+			case w.done && w.err != nil && onWire[id] != 0:
+				v.failf("write #%d on logical connection k0 failed (%v) but its envelope is on the shared transport", i, w.err)
+			}
+		}
+		mu.Unlock()
 		if c.OtherKey {
 			feed("k1", 3)
 			kit.Settle()
